@@ -191,6 +191,7 @@ type Heap struct {
 	loopSet *loopFrame // havoc node of a loop header (dry pass): the loop's own frame
 	isLoop bool
 	keepPrivate bool
+	inclStable bool // havoc from an explicit `modifies *`: stable ghosts change too
 	byCall bool // havoc caused by a call (as opposed to a loop frame)
 	keep map[string]bool // havoc: additional keys that survive
 	interf bool // write models interference by another goroutine, not a write of this function
@@ -203,13 +204,14 @@ type HeapSpace struct {
 	final map[string]bool   // keys never havocked by calls
 	private map[string]bool // keys only their type's writer methods may change
 	onHavoc func()
+	stable map[string]bool // stable ghosts: survive calls to unknown code, but not an explicit `modifies *`
 	readLog map[string]bool // when non-nil: keys read are recorded (footprint computation)
 	ignoreCallHavoc bool // evaluate as if calls to unknown code changed nothing (callees preserve invariants)
 	onHavocKey func(string)
 }
 
 func newHeapSpace(c *Ctx) *HeapSpace {
-	return &HeapSpace{c: c, sorts: map[string]string{}, final: map[string]bool{}, private: map[string]bool{}}
+	return &HeapSpace{c: c, sorts: map[string]string{}, final: map[string]bool{}, private: map[string]bool{}, stable: map[string]bool{}}
 }
 
 func (hs *HeapSpace) node(kind string) *Heap {
@@ -308,7 +310,7 @@ func (hs *HeapSpace) read(h *Heap, key string) string {
 			cur = cur.parent
 			continue
 		case "havoc":
-			if hs.final[key] || (cur.keepPrivate && hs.private[key]) || cur.keep[key] || (cur.keep["G.chan.closed"] && strings.HasPrefix(key, "G.chan.closed")) || (hs.ignoreCallHavoc && cur.byCall) {
+			if (hs.final[key] && !(cur.inclStable && hs.stable[key])) || (cur.keepPrivate && hs.private[key]) || cur.keep[key] || (cur.keep["G.chan.closed"] && strings.HasPrefix(key, "G.chan.closed")) || (hs.ignoreCallHavoc && cur.byCall) {
 				cur = cur.parent
 				continue
 			}
